@@ -33,18 +33,18 @@ type Spec struct {
 type PairSpec struct {
 	Fields map[string]*FieldSpec `json:"fields,omitempty"`
 	// IgnoreMissing: target fields without source stay zero
-	IgnoreMissing    bool `json:"ignore_missing,omitempty"`
-	IgnoreUnexported bool `json:"ignore_unexported,omitempty"`
-	IgnoreCase       bool `json:"ignore_case,omitempty"`
+	IgnoreMissing    bool       `json:"ignore_missing,omitempty"`
+	IgnoreUnexported bool       `json:"ignore_unexported,omitempty"`
+	IgnoreCase       bool       `json:"ignore_case,omitempty"`
 	AutoMap          [][]string `json:"auto_map,omitempty"`
 }
 
 type FieldSpec struct {
-	Ignore bool     `json:"ignore,omitempty"`
-	Path   []string `json:"path,omitempty"`  // source path; nil = same name
-	Whole  bool     `json:"whole,omitempty"` // "." the whole source
-	Fn     string   `json:"fn,omitempty"`    // map ... | FUNC
-	FnNoSource bool `json:"fn_no_source,omitempty"`
+	Ignore     bool     `json:"ignore,omitempty"`
+	Path       []string `json:"path,omitempty"`  // source path; nil = same name
+	Whole      bool     `json:"whole,omitempty"` // "." the whole source
+	Fn         string   `json:"fn,omitempty"`    // map ... | FUNC
+	FnNoSource bool     `json:"fn_no_source,omitempty"`
 	// Getter: Fn is an argument-less method of the source struct: its result is the source value of the field
 	Getter bool `json:"getter,omitempty"`
 	// AnyOf: the statement leaves a choice; every listed alternative is accepted
@@ -69,9 +69,9 @@ func (o *Oracle) viaCall(name string, src engine.Value) *CallEntry {
 
 type EnumSpec struct {
 	// Members: source member value (as decimal string or quoted string) -> target value
-	Map     []EnumArm `json:"map"`
-	Unknown string    `json:"unknown"` // "@error", "@panic", "@ignore" or target value literal
-	UnknownVal string `json:"unknown_val,omitempty"`
+	Map        []EnumArm `json:"map"`
+	Unknown    string    `json:"unknown"` // "@error", "@panic", "@ignore" or target value literal
+	UnknownVal string    `json:"unknown_val,omitempty"`
 }
 
 type EnumArm struct {
@@ -100,7 +100,9 @@ func typeKey(t types.Type) string {
 	return types.TypeString(t, func(p *types.Package) string { return "" })
 }
 
-func pairKey(s, t types.Type) string { return typeKey(types.Unalias(s)) + "→" + typeKey(types.Unalias(t)) }
+func pairKey(s, t types.Type) string {
+	return typeKey(types.Unalias(s)) + "→" + typeKey(types.Unalias(t))
+}
 
 func (o *Oracle) fail(path, format string, a ...interface{}) {
 	o.Leaves = append(o.Leaves, Leaf{Path: path, Cond: engine.False, Note: fmt.Sprintf(format, a...)})
